@@ -47,6 +47,19 @@ def register (b : Built) (c : Cond) : Built :=
 
 def build (regs : List Cond) : Built := regs.foldl register ⟨[], false⟩
 
+/-- one builder call: a condition, or `HandleErrors()` / `HandleErrorTypes()` handed an **empty** list of targets — that adds no
+condition but still marks errors as inspected (the flag is set outside the loop over the targets) -/
+inductive Reg
+  | cond (c : Cond)
+  | noTargets
+deriving DecidableEq, Repr
+
+def registerR (b : Built) : Reg → Built
+  | .cond c => register b c
+  | .noTargets => { b with errorsChecked := true }
+
+def buildR (regs : List Reg) : Built := regs.foldl registerR ⟨[], false⟩
+
 /-- `BaseFailurePolicy.IsFailure` -/
 def isFailureB (rie : Bool) (b : Built) (o : Outcome) : Bool :=
   if b.conds.length = 0 then o.err.isSome
@@ -55,6 +68,9 @@ def isFailureB (rie : Bool) (b : Built) (o : Outcome) : Bool :=
 
 /-- classification by a registration list on the repaired source -/
 def isFailure (regs : List Cond) (o : Outcome) : Bool := isFailureB false (build regs) o
+
+/-- classification by a list of builder calls, empty target lists included -/
+def isFailureR (regs : List Reg) (o : Outcome) : Bool := isFailureB false (buildR regs) o
 
 /-- `BaseAbortablePolicy.IsAbortable` (retry abort conditions, hedge cancel conditions) -/
 def isAbortable (regs : List Cond) (o : Outcome) : Bool := regs.any (fun c => c.eval false o)
